@@ -404,6 +404,13 @@ fn absorb(st: &mut Stats, ctx: &Ctx, idx: usize, h: &History, trace: &Trace, vs:
             Step::Disk { free_pages, free_inodes } => outcome.push(json!({"step": i, "disk_free_pages": free_pages, "disk_free_inodes": free_inodes})),
             Step::Start { session } => {
                 st.starts += 1;
+                if shim_built() {
+                    let r = if session.rand == 0 { anything_sim::history::step_rand(h, i) } else { session.rand };
+                    let off = anything_sim::exec::clock_offset_of(r);
+                    if off != 0 {
+                        *st.probes.entry(format!("process-starts-under-a-wall-clock-offset ({})", if off > 0 { "ahead" } else { "behind" })).or_default() += 1;
+                    }
+                }
                 let Some(c) = &so.child else { continue };
                 let configured = session.faults.iter().filter(|f| !matches!(f, Fault::ShortWrites { .. })).count();
                 st.faults_configured += configured;
